@@ -67,6 +67,17 @@ def run(cmd, timeout=90):
     return p.returncode, out, err
 
 
+FAIL_ON_WARNINGS = [False]
+
+
+def reported_error(err):
+    """was an error reported on stderr?  (with --fail-on-warnings a warning is one)"""
+    for l in err.split("\n"):
+        if l.startswith("error") or (FAIL_ON_WARNINGS[0] and l.startswith("warning")):
+            return True
+    return False
+
+
 def blocks(out):
     """output -> list of blocks (a rule line and the string lines that follow it)"""
     res = []
@@ -94,6 +105,7 @@ RULE_POOL = [
     ("", 'private rule p_hidden { condition: filesize > 10 } rule r_uses_private { condition: p_hidden and filesize < 100000 }'),
     ("", 'global rule g_small { condition: filesize < 400000 }'),
     ('import "hash"', 'rule r_hash { condition: hash.md5(0, filesize) == "d41d8cd98f00b204e9800998ecf8427e" }'),
+    ("", 'rule r_warn { strings: $a = "needle" condition: $a or 2 of ($a) }'),  # compiles with a warning
     ('import "math"', 'rule r_math { meta: what = "high entropy" condition: math.entropy(0, filesize) > 4.0 }'),
 ]
 
@@ -144,7 +156,7 @@ def cases(draw):
     nrules = draw(st.integers(1, 6))
     idxs = draw(st.lists(st.integers(0, len(RULE_POOL) - 1), min_size=nrules, max_size=nrules, unique=True))
     two_ns = draw(st.booleans())
-    opts = draw(st.lists(st.sampled_from(["-s", "-L", "-X", "-m", "-g", "-e", "-c", "-n", "-f", "-w", "-t tagA", "-i r_text", "-q"]),
+    opts = draw(st.lists(st.sampled_from(["-s", "-L", "-X", "-m", "-g", "-e", "-c", "-n", "-f", "-w", "-t tagA", "-i r_text", "-q", "--fail-on-warnings"]),
                          max_size=5, unique=True))
     if draw(st.integers(0, 9)) < 6 and not any(o in ("-s", "-L", "-X") for o in opts):
         opts = opts[:4] + [draw(st.sampled_from(["-s", "-L", "-X"]))]  # multi-line blocks are what the output lock protects
@@ -195,6 +207,7 @@ def check_case(c):
         for o in c["opts"]:
             opts += o.split()
         base = [YARA] + opts + ext
+        FAIL_ON_WARNINGS[0] = "--fail-on-warnings" in opts
 
         def per_file(p):
             return run(base + ["-p", "1"] + rule_args + [p])
@@ -208,12 +221,18 @@ def check_case(c):
                 # documented difference of presentation: single-file mode prints the bare count,
                 # directory mode prefixes it with the file name
                 out = "%s: %s\n" % (path, out.strip())
-            has_err = any(l.startswith("error") for l in err.split("\n"))
+            has_err = reported_error(err)
             any_err = any_err or has_err
             if (rc != 0) != has_err:
                 raise Violation("single file scan: exit status %d but stderr %s an error:\n%s" % (rc, "reports" if has_err else "does not report", err[-500:]))
             expected.update(blocks(out))
         matching_files = sum(1 for rc, out, err in singles if out.strip())
+        if FAIL_ON_WARNINGS[0] and any(rc != 0 for rc, out, err in singles):
+            # the source rules have compile-time warnings and the run was told to fail on them: nothing was
+            # scanned (exit status and diagnostics were checked above), so there is nothing to compare with
+            STATS["classes"]["stopped by --fail-on-warnings"] += 1
+            FAIL_ON_WARNINGS[0] = False
+            return
         # directory scans with several thread counts, three repetitions each
         dir_args = ["-r"] if c["recursive"] else []
         for p in c["threads"]:
@@ -225,9 +244,12 @@ def check_case(c):
                     extra = list((got - expected).elements())[:3]
                     raise Violation("directory scan with -p %d (run %d) differs from the per-file scans: %d blocks expected, %d printed; "
                                     "missing e.g. %r; unexpected e.g. %r" % (p, rep, sum(expected.values()), sum(got.values()), missing, extra))
-                has_err = any(l.startswith("error") for l in err.split("\n"))
+                has_err = reported_error(err)
                 if (rc != 0) != has_err:
-                    raise Violation("directory scan -p %d: exit status %d, stderr: %s" % (p, rc, err[-300:]))
+                    if has_err and rc == 0 and "error scanning " in err and SIG_SCANLIST_EXIT in KNOWN:
+                        STATS["known"][SIG_SCANLIST_EXIT] += 1  # a per-file scan error: the listed finding
+                    else:
+                        raise Violation("directory scan -p %d: exit status %d, stderr: %s" % (p, rc, err[-300:]))
         # --scan-list
         if paths:
             lst = os.path.join(work, "list.txt")
@@ -243,9 +265,9 @@ def check_case(c):
             got = collections.Counter(b for b in blocks(out) if not b.startswith(os.path.join(root, "does-not-exist")))
             if got != expected:
                 raise Violation("--scan-list with -p %d prints %d blocks, the per-file scans %d" % (p, sum(got.values()), sum(expected.values())))
-            has_err = any(l.startswith("error") for l in err.split("\n"))
+            has_err = reported_error(err)
             if (rc != 0) != has_err:
-                if c["missing_in_list"] and has_err and rc == 0 and SIG_SCANLIST_EXIT in KNOWN:
+                if has_err and rc == 0 and "error scanning " in err and SIG_SCANLIST_EXIT in KNOWN:
                     STATS["known"][SIG_SCANLIST_EXIT] += 1
                 else:
                     raise Violation("--scan-list: exit status %d but stderr %s an error: %s" % (rc, "reports" if has_err else "does not report", err[-300:]))
@@ -271,9 +293,12 @@ def check_case(c):
                 extra = list((got - expected).elements())[:3]
                 raise Violation("yarac + yara -C (externals: %s) prints something else than the source rules: missing e.g. %r; unexpected e.g. %r"
                                 % (stage, missing, extra))
-            has_err = any(l.startswith("error") for l in err.split("\n"))
+            has_err = reported_error(err)
             if (rc != 0) != has_err:
-                raise Violation("yara -C: exit status %d, stderr: %s" % (rc, err[-300:]))
+                if has_err and rc == 0 and "error scanning " in err and SIG_SCANLIST_EXIT in KNOWN:
+                    STATS["known"][SIG_SCANLIST_EXIT] += 1
+                else:
+                    raise Violation("yara -C: exit status %d, stderr: %s" % (rc, err[-300:]))
         # everything the tool can print about a match (-s -m -g -e: strings, metas, tags, namespace), once
         # more from the source rules and from the compiled rules
         full = ["-s", "-m", "-g", "-e", "-w"]
@@ -361,7 +386,7 @@ def fixed_cases():
         lst = os.path.join(work, "list.txt")
         open(lst, "w").write(f1 + "\n" + os.path.join(work, "missing") + "\n")
         rc, out, err = run([YARA, "--scan-list", rp, lst])
-        has_err = any(l.startswith("error") for l in err.split("\n"))
+        has_err = reported_error(err)
         if "r_text " + f1 not in out:
             return "scan-list with a missing entry no longer reports the readable file"
         if has_err and rc == 0:
